@@ -3,7 +3,7 @@
    node is linked where: `add` links the operand node of the patch document itself, `copy` links fresh nodes (jbn_clone),
    `move` re-links the detached node, _jbl_copy_node_data makes the target take over the CHILDREN of the value node.
    `reparent` = does _jbl_copy_node_data set the `parent` field of the children it takes over (fixes/jpatch-parent-pointers.diff)?
-   The unmodified code does not (probed: JP_REPARENT in Gen/Facts.v).  No proofs here. *)
+   Before 61c2a75 the code did not (probed on every run: JP_REPARENT in Gen/Facts.v).  No proofs here. *)
 Require Import ZArith List Bool. Require Import IW.Lib.CInt IW.Gen.Facts IW.UT.Conv IW.JSON.Val IW.JSON.Patch. Import ListNotations.
 Local Open Scope Z_scope. Local Open Scope bool_scope.
 
@@ -114,15 +114,18 @@ Definition i_put_here (rp : bool) (fo : fops) (k : opk) (p : inode) (s : seg) (v
       end
     else if is_dash s then (RcOk, iadd_item p v)
     else
-      let idx := sw 32 (atoi s) in
-      let len := Z.of_nat (length (i_ch p)) in
-      if (idx >? len) || (idx <? 0) then (RcBadIdx, p)
-      else
-        let v1 := iset_kl v idx in
-        if idx <? len then
-          let i := Z.to_nat idx in
-          (RcOk, iset_ch p (firstn i (i_ch p) ++ iset_par (i_id p) v1 :: map iinc_kl (skipn i (i_ch p))))
-        else (RcOk, iadd_item p v1)
+      match arr_index s with
+      | None => (RcBadIdx, p)
+      | Some idx =>
+        let len := Z.of_nat (length (i_ch p)) in
+        if (idx >? len) || (idx <? 0) then (RcBadIdx, p)
+        else
+          let v1 := iset_kl v idx in
+          if idx <? len then
+            let i := Z.to_nat idx in
+            (RcOk, iset_ch p (firstn i (i_ch p) ++ iset_par (i_id p) v1 :: map iinc_kl (skipn i (i_ch p))))
+          else (RcOk, iadd_item p v1)
+      end
   | TObj =>
     match ichild_pos p s with
     | Some i =>
